@@ -170,7 +170,22 @@ def _tapped_parse_info(state):
         TAP.unit_codes.append((state["_last_parse_info_offset"], state["parse_code"], state["next_parse_offset"], state["previous_parse_offset"]))
 
 
+_real_bs_sequence_header = bs_vc2.sequence_header
+DESER_HEADERS = []
+
+
+def _tapped_bs_sequence_header(serdes, state):
+    """Tap on the *deserialiser's* sequence_header: records the decoded video
+    parameters it returns (the Sequence's ``_state`` is one shared object for
+    all sequences of a stream, so it cannot be used for this)."""
+    vp = _real_bs_sequence_header(serdes, state)
+    DESER_HEADERS.append((dict(vp), state["picture_coding_mode"]))
+    return vp
+
+
 def install_taps():
+    if bs_vc2.sequence_header is not _tapped_bs_sequence_header:
+        bs_vc2.sequence_header = _tapped_bs_sequence_header
     if dec_stream.sequence_header is not _tapped_sequence_header:
         dec_stream.sequence_header = _tapped_sequence_header
         dec_stream.picture_decode = _tapped_picture_decode
@@ -261,7 +276,7 @@ def _scope_monitor(des, target, value):
 
 
 class DeserResult(object):
-    __slots__ = ("verdict", "exc", "context", "reads", "consumed_bits")
+    __slots__ = ("verdict", "exc", "context", "reads", "consumed_bits", "headers")
 
 
 def run_deserialiser(data):
@@ -270,6 +285,7 @@ def run_deserialiser(data):
     f = SimFile(data)
     reader = BitstreamReader(f)
     res.context = None
+    del DESER_HEADERS[:]
     try:
         with MonitoredDeserialiser(_scope_monitor, reader) as des:
             bs_vc2.parse_stream(des, State())
@@ -280,6 +296,7 @@ def run_deserialiser(data):
     except Exception as e:  # noqa: BLE001
         res.verdict, res.exc = "fail", e
     res.reads = f.reads
+    res.headers = list(DESER_HEADERS)
     try:
         res.consumed_bits = to_bit_offset(*reader.tell())
     except Exception:
